@@ -2,7 +2,7 @@
 import json
 import random
 
-from common import lean_obligations, build_harness, hx
+from common import lean_obligations, build_harness, hx, run_model
 from gram import Oracle, random_grammar, all_strings, random_sentence, mutate
 import lrfamily as lf
 import treeparse as tp
@@ -241,6 +241,69 @@ def forest_correspondence(rep, fcases):
     return breaks
 
 
+# ---- Tie A for the GSS engine: real GlrParser vs the Lean engine model (Model/Glr.lean, driver command `glr`) ------------
+
+def glr_model_answers(cases):
+    """asks the Lean engine model for the answer line of every GLR input of the cases (same request the harness job
+    stands for: partial flag, input, max_trees, the match matrix the harness computed); stores them in case.model"""
+    reqs, idx = [], []
+    for c in cases:
+        c.model = ["skipped"] * len(c.inputs)
+        if c.dump is None or not c.results:
+            continue
+        rq = ["load " + c.dump]
+        ks = []
+        for k, ((algo, partial, inp, _m), mat) in enumerate(zip(c.inputs, c.matrices)):
+            if algo != "GLR" or c.results[k].startswith("skipped") or c.results[k] in ("notable", "harness-crash"):
+                continue
+            ks.append(k)
+            rq.append(f"glr {partial} {hx(inp)} {getattr(c, 'max_trees', 64)} #{mat}")
+        reqs.append(rq)
+        idx.append((c, ks))
+    if reqs:
+        outs = run_model(reqs, tag="glr")
+        for (c, ks), o in zip(idx, outs):
+            for k, a in zip(ks, o[1:]):
+                c.model[k] = a
+    return cases
+
+
+def engine_correspondence(rep, cases, name="glr-engine"):
+    """every answer line of the real GlrParser (Ok/Err, solutions(), every printed tree with all spans, iteration flags,
+    error position and expected set; for forest jobs the whole SPPF dump incl. sharing) must equal the model's"""
+    breaks = []
+    wired = False
+    for c in cases:
+        if c.dump is None or not getattr(c, "model", None):
+            continue
+        for k, (r, m) in enumerate(zip(c.results, c.model)):
+            if m == "skipped":
+                continue
+            if m == "bad-request":
+                rep.count(name + "_model_not_wired")
+                continue
+            wired = True
+            if r == "timeout" and m.startswith("ok "):
+                # solutions() / get_tree of the implementation are exponential in the forest depth (no memoisation);
+                # the model counts on the graph.  A watchdog timeout of the real run on a huge forest is not a difference.
+                try:
+                    big = m == "ok parse-only" or int(m.split(" ")[1]) > 50000
+                except Exception:
+                    big = False
+                if big:
+                    rep.count(name + "_impl_timeout_on_huge_forest(not compared)")
+                    continue
+            rep.count(name + "_compared")
+            if r.startswith("ok ") and r != "ok parse-only" and int(r.split(" ")[1]) > 1:
+                rep.count(name + "_compared_ambiguous")
+            if not lf.same_answer(r, m):
+                breaks.append((c, k))
+    if not wired and any(c.dump is not None for c in cases):
+        rep.notes.append("driver does not answer `glr` requests (engine model not wired into Main.lean): " + name +
+                         " correspondence not run")
+    return breaks
+
+
 def known_oracle(c):
     for (_, _, _, m) in c.inputs:
         m["job"] = "std"
@@ -259,10 +322,11 @@ def run(rep, tier, seed):
     for fc in lf.replay_known(rep, "C03", known_oracle):
         cases.insert(0, fc)
     lf.add_histories(rng, cases)
-    lf.run_cases(cases, model=True, extra_requests=lambda c: ["cover 0 0 1"], parse_model=False)
+    lf.run_cases(cases, model=True, extra_requests=lambda c: ["cover 0 0 1"], parse_model=True)
     cases += directed(rep, cases, rng)
     fcases = forest_cases(cases)
     lf.run_cases(fcases, model=False)
+    glr_model_answers(fcases)
     check(rep, cases, fcases, proofs_ok)
 
 
@@ -288,6 +352,7 @@ def directed(rep, cases, rng):
             out.append(d)
     if out:
         lf.run_cases(out, model=False)
+        glr_model_answers(out)
         for d in out:
             d.extra = ["ok (directed search case)"]
     return out
@@ -300,10 +365,16 @@ def check(rep, cases, fcases, proofs_ok):
                        "tree valid modulo elision and distinct, tree set = derivation tree set (<= 64 trees), by-index = by-iteration, "
                        "None beyond solutions(); every RN table must pass the Lean certificate Cover.check (exactly the canonical "
                        "actions plus every right-nulled reduction), a failing table triggers a directed deeper input search; second pass: the real SPPF (runtime hook) is loaded into the Lean enumeration model "
-                       "and solutions/get_tree compared; distinct = (grammar, input)")
+                       "and solutions/get_tree compared; EVERY input (incl. the forest jobs and the directed search) is also run "
+                       "through the Lean model of the GSS engine (Model/Glr.lean: frontiers, pending reductions in the real order, "
+                       "right-nulled reductions, the fold, shifter, accept/error) and the answer lines are compared textually: "
+                       "Ok/Err, solutions(), every printed tree with all spans, error position and expected set, and for the forest "
+                       "jobs the whole SPPF dump (sharing structure, node numbering of the hook); distinct = (grammar, input)")
     failures, _ = lf.evaluate(rep, cases, oracle, proofs_ok, PROP_MODULE, compare_model=False, known_class=known_class)
     breaks = forest_correspondence(rep, fcases)
     rep.counters["forest_corr_breaks"] = len(breaks)
+    ebreaks = engine_correspondence(rep, cases) + engine_correspondence(rep, fcases, name="glr-engine-forest")
+    rep.counters["engine_corr_breaks"] = len(ebreaks)
     amb = sum(1 for c in cases for r in c.results if r.startswith("ok ") and int(r.split(" ")[1]) > 1)
     rep.counters["ambiguous_inputs"] = amb
     rep.counters["sentences"] = sum(1 for c in cases for r in c.results if r.startswith("ok "))
@@ -322,8 +393,14 @@ def check(rep, cases, fcases, proofs_ok):
         rep.violation(dict(c.describe(k), why="correspondence corr:forest broken (Lean Forest.getTree/solutions != real "
                            "Forest::get_tree/solutions on the dumped SPPF); the derivation oracle found no failing input",
                            model=ans, kind="impl!=model", n_breaks=len(breaks)), no_input=True)
-    rep.assumptions += ["the GSS engine (reducer/shifter) is not modelled: its completeness and duplicate-freeness is decided by "
-                        "the derivation oracle on the generated cases only"]
+    if ebreaks and not failures and not cf:
+        c, k = min(ebreaks, key=lambda f: (len(f[0].text), len(f[0].inputs[f[1]][2])))
+        rep.violation(dict(c.describe(k), why="correspondence corr:glr-engine broken (Lean model of the GSS engine, Model/Glr.lean "
+                           "`Glr.parse`, != real GlrParser::parse on the same table, input and match matrix); the derivation "
+                           "oracle found no failing input", kind="impl!=model", n_breaks=len(ebreaks)), no_input=True)
+    rep.assumptions += ["the GSS engine is modelled (Model/Glr.lean) and tied to the code by correspondence on every input; proved of "
+                        "the model: soundness modulo elision, no panic, see notes/Glr.md; engine completeness and duplicate-freeness "
+                        "are additionally decided by the derivation oracle on the generated cases"]
 
 
 def replay(rep, path):
@@ -332,7 +409,8 @@ def replay(rep, path):
     g = lf.parse_bnf(p["grammar"])
     inp = p.get("input", "")
     c = lf.Case(p["grammar"], p["settings"].split(" "), [("GLR", "0", inp, {"toks": lf.toks_of_input(g, inp), "job": "std"})], gram=g)
-    lf.run_cases([c], model=True, extra_requests=lambda c: ["cover 0 0 1"], parse_model=False)
+    lf.run_cases([c], model=True, extra_requests=lambda c: ["cover 0 0 1"], parse_model=True)
     f = forest_cases([c])
     lf.run_cases(f, model=False)
+    glr_model_answers(f)
     check(rep, [c], f, True)
